@@ -104,6 +104,38 @@ def extract(router, store):
     return out
 
 
+def extract_views(viewset):
+    """the registered views of a real ViewSet, in registration order. Fails closed on unknown kinds."""
+    from simaple.simulate.component.base import WrappedView
+    from simaple.simulate.timer import clock_view
+    from simaple.simulate.view import AggregationView
+    by_id = {id(v): n for n, v in viewset._views.items()}
+    out = {"names": list(viewset._views), "component_views": [], "aggregations": [], "clock": []}
+    for n, v in viewset._views.items():
+        if isinstance(v, WrappedView):
+            ad = v._store_adapter
+            out["component_views"].append({"full": n, "component": v._name, "view": getattr(v._wrapped_view_method._func, "__name__", "?"),
+                                           "cls": type(getattr(v._wrapped_view_method._func, "__self__", None)).__name__,
+                                           "defaults": list(v._default_state), "binds": list(ad._binds.items()),
+                                           "bound_names": list(ad._get_bound_names().items())})
+        elif isinstance(v, AggregationView):
+            pat = type(v).get_installation_pattern()
+            m = re.fullmatch(r"\.\*\\\.([A-Za-z_]+)", pat)
+            if not m:
+                raise Unknown("aggregation view %s has a pattern of unknown shape %r" % (n, pat))
+            kids = []
+            for ch in v._children:
+                if id(ch) not in by_id:
+                    raise Unknown("aggregation view %s has a child that is not a registered view" % n)
+                kids.append(by_id[id(ch)])
+            out["aggregations"].append({"name": n, "cls": type(v).__name__, "kind": m.group(1), "pattern": pat, "children": kids})
+        elif v is clock_view:
+            out["clock"].append(n)
+        else:
+            raise Unknown("registered view %s of unknown kind %r" % (n, v))
+    return out
+
+
 def comp_static(c, ent="tt", payload="tt") -> str:
     """`U name keys defaults binds addons` of gen/DispatchData.v"""
     addons = []
@@ -115,13 +147,13 @@ def comp_static(c, ent="tt", payload="tt") -> str:
         cl("(%s, %s)" % (cs(k), cs(v)) for k, v in c["binds"]), cl(addons))
 
 
-def data_file(systems) -> str:
-    """systems: [(label, [comp dicts])]"""
+def data_file(systems, inits=None) -> str:
+    """systems: [(label, [comp dicts])]; inits: label -> address list of the freshly built engine's store"""
     t = ("(* GENERATED by tools/lib/h_dispatch.py from the dispatcher objects of real engines of the tree under test.\n"
          "   One list of components per (job, environment): name, mapping keys with method names in dict order,\n"
          "   default-state names, binds, addons (when, destination, method).  The theorems below are the generated\n"
          "   obligations that the C05/C06 dispatch theorems assume of the installed components. *)\n"
-         "From Coq Require Import List Bool String.\nFrom V.Model Require Import Dispatch.\nImport ListNotations.\nOpen Scope string_scope.\n"
+         "From Coq Require Import List Bool String.\nFrom V.Model Require Import Dispatch DispatchViews.\nImport ListNotations.\nOpen Scope string_scope.\n"
          "Definition U (name : string) (keys : list (string * string)) (defaults : list string) (binds : list (string * string))\n"
          "  (addons : list (string * string * string)) : component unit unit :=\n"
          "  {| c_name := name;\n     c_maps := map (fun km => (fst km, {| m_method := Some (snd km); m_red := None |})) keys;\n"
@@ -137,8 +169,18 @@ def data_file(systems) -> str:
     obl = [("shipped_clock_unbound", "clock_unbound unit unit"), ("shipped_callbacks_unbound", "addr_unbound unit unit callbacks_addr"),
            ("shipped_addons_no_elapse", "addons_no_elapse unit unit"), ("shipped_names_distinct", "names_distinct unit unit"),
            ("shipped_keys_nonempty", "keys_nonempty unit unit")]
+    if inits is not None:
+        # C10: every bind target is some component's own entity or a global property (model's initial store), and every bound
+        # address is in the address set of the REAL freshly built store
+        obl.append(("shipped_binds_closed", "binds_closed unit unit"))
+        t += "Definition all_initial_addresses : list (list string) :=\n  [%s].\n" % ";\n   ".join(cl(cs(a) for a in inits[l]) for l, _c in systems)
     for n, f in obl:
         t += "Theorem %s : forallb (%s) all_systems = true.\nProof. vm_compute. reflexivity. Qed.\n" % (n, f)
+    if inits is not None:
+        t += ("Theorem shipped_bound_in_initial_store :\n  List.length all_initial_addresses = List.length all_systems /\\\n"
+              "  forallb (fun p => bound_in unit unit (fst p) (snd p)) (combine all_initial_addresses all_systems) = true.\n"
+              "Proof. vm_compute. split; reflexivity. Qed.\n")
+        obl.append(("shipped_bound_in_initial_store", None))
     t += "Theorem shipped_systems_counted : List.length all_systems = %d /\\ List.length (List.concat all_systems) = %d.\nProof. vm_compute. split; reflexivity. Qed.\n" % (
         len(systems), sum(len(c) for _l, c in systems))
     for n, _f in obl:
@@ -147,9 +189,17 @@ def data_file(systems) -> str:
     return t
 
 
-def python_obligations(label, comps):
+def python_obligations(label, comps, init_addrs=None):
     """the same guards evaluated in Python, to name a concrete witness when the Coq obligation fails"""
     bad = []
+    if init_addrs is not None:
+        own = {"global.dynamics", CLOCK} | {"%s.%s" % (c["local"], n) for c in comps for n in c["defaults"]}
+        for c in comps:
+            for (n, a), addr in zip(c["bound_names"], c["bound"]):
+                if addr not in init_addrs or addr not in own:
+                    bad.append({"what": "C10: a bound name resolves to an address that no component owns and that is absent from the initial store "
+                                        "(every view and every dispatch of the component raises ValueError)", "system": label, "component": c["name"],
+                                "bound_name": n, "bind": a, "address": addr})
     seen = set()
     for c in comps:
         if CLOCK in c["bound"]:
@@ -310,6 +360,11 @@ class Recording:
         self.clock0 = None
         self.state_fields = {}     # (comp, key) -> field names of the state type
         self.bases = {}            # component name -> the real ReducerMethodWrappingDispatcher
+        self.viewset = None        # set (C10) to probe every registered view on the store after every play
+        self.views = None
+        self.view_obs, self.view_findings = [], []
+        self.view_stats = collections.Counter()
+        self.deep_every = 4
         self.error = None
 
     def store_ids(self, store):
@@ -369,14 +424,108 @@ class Recording:
                            "invocations": self.invocations[n0:], "calls": (c0, len(self.calls)), "timer": self.timer[t0:],
                            "after": self.store_ids(st2), "clock_before": ck0,
                            "clock_after": _edump(ents[CLOCK]) if CLOCK in ents else None})
+        if self.viewset is not None:
+            probe_views(self, st2, deep=(len(self.plays) % self.deep_every == 1))
         return out
 
 
-def record_engine(job, variant, lines):
+def _vdump(x):
+    from lib.h_engine import norm
+    return norm(x)
+
+
+def _close(a, b, tol=1e-9):
+    if isinstance(a, dict) and isinstance(b, dict):
+        return a.keys() == b.keys() and all(_close(a[k], b[k], tol) for k in a)
+    if isinstance(a, (int, float)) and isinstance(b, (int, float)):
+        return abs(a - b) <= tol * max(1.0, abs(a), abs(b))
+    return a == b
+
+
+def probe_views(rec, store, deep=False):
+    """C10 on one live store: evaluate every registered view; log what each component view READS, whether anything in the
+    store changed, whether it raised; check every aggregation against its children (buff = Stat.sum, in order / shuffled)"""
+    from simaple.core.base import Stat
+    vs, vd = rec.viewset, rec.views
+    cstore = store._concrete_store
+    ents = cstore._entities
+    reads = []
+    orig = cstore.read_entity
+
+    def logged(name, default):
+        reads.append(name)
+        return orig(name, default)
+    where = {"system": rec.label, "plan": getattr(rec, "lines", None), "after_play": len(rec.plays)}
+    base = store.save() if deep else None
+    cstore.read_entity = logged
+    try:
+        kinds = {v["full"]: v for v in vd["component_views"]}
+        for name, view in list(vs._views.items()):
+            del reads[:]
+            ident = dict(ents)
+            rec.view_stats["view_calls"] += 1
+            try:
+                view(store)
+            except Exception as ex:
+                cv = kinds.get(name)
+                rec.view_findings.append(dict(prop="C10", what="H-dispatch: view %s raised %r" % (name, ex), component=(cv or {}).get("cls", "viewset"),
+                                              name=(cv or {}).get("component", name), reducer=(cv or {}).get("view", name), **where))
+                continue
+            changed = [k for k in ents if k not in ident or ident[k] is not ents[k]] + [k for k in ident if k not in ents]
+            if not changed and deep and store.save() != base:
+                changed = ["(store.save() differs)"]
+            if changed:
+                rec.view_stats["views_that_changed_the_store"] += 1
+                cv = kinds.get(name)
+                rec.view_findings.append(dict(prop="C10", what="H-dispatch: evaluating view %s changed the store at %s" % (name, changed[:4]),
+                                              component=(cv or {}).get("cls", "viewset"), name=(cv or {}).get("component", name),
+                                              reducer=(cv or {}).get("view", name), **where))
+            if name in kinds:
+                rec.view_obs.append((kinds[name]["component"], kinds[name]["view"], tuple(reads)))
+        # aggregations vs their children
+        for agg in vd["aggregations"]:
+            try:
+                kids = [vs._views[n](store) for n in agg["children"]]
+                got = vs._views[agg["name"]](store)
+            except Exception:
+                continue        # reported above
+            rec.view_stats["aggregation_checks"] += 1
+            if agg["cls"] == "BuffParentView":
+                some = [k for k in kids if k is not None]
+                exp = Stat.sum(list(some))
+                rec.view_stats["buff_children_some"] += len(some)
+                d_got, d_exp = _vdump(got), _vdump(exp)
+                import math
+                if not all(isinstance(x, (int, float)) and math.isfinite(x) for x in d_got.values()):
+                    rec.view_findings.append(dict(prop="C10", what="H-dispatch: the total buff is not a well-formed stat block", component="BuffParentView",
+                                                  name="buff", reducer="aggregate", value=d_got, **where))
+                if d_got != d_exp:
+                    rec.view_findings.append(dict(prop="C10", what="H-dispatch: viewer('buff') is not Stat.sum of the component buffs that are not None, in "
+                                                  "installation order", component="BuffParentView", name="buff", reducer="aggregate",
+                                                  children=agg["children"], some=len(some), observed=d_got, expected=d_exp, **where))
+                sh = list(some)
+                random.Random(len(rec.plays)).shuffle(sh)
+                if not _close(_vdump(Stat.sum(sh)), d_got):
+                    rec.view_findings.append(dict(prop="C10", what="H-dispatch: the total buff depends on the installation order beyond rounding noise",
+                                                  component="BuffParentView", name="buff", reducer="aggregate", observed=d_got,
+                                                  shuffled=_vdump(Stat.sum(sh)), **where))
+            elif _vdump(got) != _vdump(kids):
+                rec.view_findings.append(dict(prop="C10", what="H-dispatch: aggregation view %s is not the list of its children's results in order" % agg["name"],
+                                              component=agg["cls"], name=agg["name"], reducer="aggregate", **where))
+    finally:
+        del cstore.read_entity
+    rec.view_stats["stores_probed"] += 1
+    rec.view_stats["stores_compared_by_save"] += 1 if deep else 0
+
+
+def record_engine(job, variant, lines, views=False):
     """a real engine of a shipped job, run through a plan"""
     import simaple.simulate.engine as eng_mod
     rec = Recording("%s/%d" % (job, variant))
     e = simenv.make_engine(job, variant)
+    if views:
+        rec.viewset = e._viewset
+        rec.views = extract_views(e._viewset)
     store = e._history.current_store() if hasattr(e, "_history") else e._store
     pending = store._concrete_store._entities.get(CALLBACKS)
     if pending is not None and pending.events:
@@ -410,7 +559,8 @@ def synthetic_classes():
         return _SYN
     from pydantic import BaseModel, ConfigDict
     from simaple.simulate.base import Entity
-    from simaple.simulate.component.base import Component, ReducerState, reducer_method
+    from simaple.core.base import Stat
+    from simaple.simulate.component.base import Component, ReducerState, reducer_method, view_method
     from simaple.simulate.global_property import Dynamics
     from simaple.simulate.reserved_names import Tag
 
@@ -468,6 +618,20 @@ def synthetic_classes():
         def ack(self, _: None, state: VfDispatchStateA):
             return state, [{"name": self.name, "payload": {}, "tag": Tag.ACCEPT, "method": "", "handler": None}]
 
+        @view_method
+        def validity(self, state: VfDispatchStateA):
+            return {"name": self.name, "left": self.limit - state.counter.n}
+
+        @view_method
+        def info(self, state: VfDispatchStateA):
+            return {"name": self.name}
+
+        @view_method
+        def buff(self, state: VfDispatchStateA):
+            if state.counter.n == 0:
+                return None
+            return Stat(attack_power=0.1 * state.counter.n, final_damage_multiplier=5.0 + state.counter.n, ignored_defence=7.5)
+
     class VfDispatchCompB(Component):
         def get_default_state(self):
             return {"counter": VfDispatchCounter()}
@@ -488,6 +652,18 @@ def synthetic_classes():
             state = state.deepcopy()
             state.counter.n += 1
             return state, None
+
+        @view_method
+        def buff(self, state: VfDispatchStateB):
+            return Stat(STR=0.1 * state.other.n, final_damage_multiplier=10.0 + state.counter.n % 7, ignored_defence=20.0)
+
+        @view_method
+        def running(self, state: VfDispatchStateB):
+            return {"name": self.name, "n": state.counter.n, "other": state.other.n}
+
+        @view_method
+        def buffer(self, state: VfDispatchStateB):     # ".*\\.buff" is matched with re.match: this view is a child of the buff aggregation too
+            return None
 
     _SYN.update(A=VfDispatchCompA, B=VfDispatchCompB, Counter=VfDispatchCounter)
     return _SYN
@@ -514,20 +690,20 @@ SYN_ACTIONS = [
 ]
 
 
-def record_synthetic(rng, n_extra=0):
+def record_synthetic(rng, n_extra=0, views=False):
     from simaple.core.base import ActionStat
     from simaple.simulate.base import play as orig_play
-    from simaple.simulate.builder import EngineBuilder
-    from simaple.simulate.kms import bare_store
-    from simaple.simulate.timer import timer_delay_dispatcher
+    from simaple.simulate.kms import get_builder
     rec = Recording("synthetic")
-    store = bare_store(ActionStat())
-    b = EngineBuilder(store)
     comps = synthetic_components()
     orig_binds = {c.name: dict(c.binds) for c in comps}
-    for c in comps:
-        b.add_component(c)
-    b.add_dispatcher(timer_delay_dispatcher)
+    b = get_builder(comps, ActionStat())         # kms.py: clock view, components, the timer, the five aggregation views
+    store = b._store
+    rec.initial_addresses = [a for a in store.save().keys() if a != CALLBACKS]
+    if views:
+        rec.viewset = b._viewset
+        rec.views = extract_views(b._viewset)
+        rec.deep_every = 2
     router = rec.attach(b._router, store)
     rec.orig_binds = orig_binds
     rec.components = comps
@@ -707,13 +883,77 @@ def chunks(l, n):
 
 
 # ------------------------------------------------------------------------------------------- the run
+def step1(ctx, prop, cov, findings):
+    """extraction from freshly built engines of all jobs, gen/DispatchData.v, the generated obligations; the Python mirror of the
+    obligations names a concrete witness.  Done once per check (cached on ctx)."""
+    cached = getattr(ctx, "_hd_step1", None)
+    if cached is not None:
+        systems, inits, viewdata, pybad, cov1 = cached
+        cov.update(cov1)
+    else:
+        cov1 = {}
+        systems, inits, viewdata, pybad = _step1(ctx, cov1)
+        ctx._hd_step1 = (systems, inits, viewdata, pybad, cov1)
+        cov.update(cov1)
+    for b in pybad:
+        if b["what"].startswith(prop) or not b["what"].startswith("C"):
+            findings.append(dict(prop=prop, what="H-dispatch: " + b["what"], component=b["component"], reducer="(install)", **{k: v for k, v in b.items() if k not in ("what", "component")}))
+    return systems, inits, viewdata
+
+
+def _step1(ctx, cov):
+    jobs = list(simenv.JOBS)
+    variants = [0] if not ctx.thorough else [0, 1, 2]
+    systems, pybad, inits, viewdata = [], [], {}, {}
+    try:
+        for job in jobs:
+            for v in variants:
+                e = simenv.make_engine(job, v)
+                store = e._history.current_store() if hasattr(e, "_history") else e._store
+                inits["%s_%d" % (job, v)] = [a for a in store.save().keys() if a != CALLBACKS]
+                viewdata["%s_%d" % (job, v)] = extract_views(e._viewset)
+                for vn, view in e._viewset._views.items():          # C10 in the initial state: every registered view evaluates
+                    try:
+                        view(store)
+                    except Exception as ex:
+                        pybad.append({"what": "C10: view %s raises on the freshly built engine: %r" % (vn, ex), "system": "%s/%d" % (job, v),
+                                      "component": vn.rsplit(".", 1)[0], "view": vn})
+                comps = [d for k, d in extract(e._router, store) if k == "comp"]
+                kinds = [k for k, _d in extract(e._router, store)]
+                if kinds != ["comp"] * len(comps) + ["timer"]:
+                    raise Unknown("%s/%d: installed layout %s is not components followed by the timer" % (job, v, collections.Counter(kinds)))
+                systems.append(("%s_%d" % (job, v), comps))
+                pybad += python_obligations("%s/%d" % (job, v), comps, set(inits["%s_%d" % (job, v)]))
+    except Unknown as ex:
+        ctx.broken.append("H-dispatch extraction: %s" % ex)
+    cov["systems"] = len(systems)
+    cov["components"] = sum(len(c) for _l, c in systems)
+    cov["mapping_keys"] = sum(len(c["keys"]) for _l, cc in systems for c in cc)
+    cov["dollar_keys"] = sorted({k for _l, cc in systems for c in cc for k, _m in c["keys"] if k.startswith("$")})
+    cov["bind_targets"] = dict(collections.Counter(v for _l, cc in systems for c in cc for _k, v in c["binds"]).most_common(12))
+    cov["addons"] = sum(len(c["addons"]) for _l, cc in systems for c in cc)
+    if systems:
+        ctx.write_gen("DispatchData.v", data_file(systems, inits))
+        ok, log, failed = ctx.build(TARGETS)
+        if not ok:
+            ctx.obligations += 1
+            m = re.search(r"Error.*", log, re.S)
+            ctx.broken.append("H-dispatch: Model/DispatchExec.v does not build: %s" % " ".join((m.group(0) if m else log[-300:]).split())[:300])
+        elif not _check_generated(ctx):     # compiles the file: data + the generated obligations, proved there by vm_compute
+            ctx.broken.append("generated obligations of gen/DispatchData.v (clock / callbacks address bound by no component, no addon re-dispatches "
+                              "*.elapse, distinct names, non-empty keys, every bind target owned by a component or global and present in the initial store) "
+                              "do not check on the components of this tree")
+    return systems, inits, viewdata, pybad
+
+
 def run(ctx, prop: str):
     """returns (implementation counterexamples, nothing else): see the module docstring"""
     t_start = time.time()
     quick = not ctx.thorough
-    rng = random.Random(ctx.seed * 7919 + {"C05": 5, "C06": 6, "C07": 7}.get(prop, 0))
+    rng = random.Random(ctx.seed * 7919 + {"C05": 5, "C06": 6, "C07": 7, "C10": 10}.get(prop, 0))
     cov = {"part": prop}
     ctx.cov["dispatch"] = cov
+    is10 = prop == "C10"        # C10 = the store-access part of the views; the dispatcher glue itself is checked by C05/C06/C07
     findings, diffs = [], []
     timing = cov.setdefault("timing", {})
 
@@ -724,43 +964,8 @@ def run(ctx, prop: str):
     def diff(what, case=None, expected=None, observed=None):
         diffs.append({"what": what, "input": case, "expected_model": expected, "observed_implementation": observed})
 
-    # ---- 1. extraction + generated obligations
-    jobs = list(simenv.JOBS)
-    variants = [0] if quick else [0, 1, 2]
-    systems, pybad = [], []
-    try:
-        for job in jobs:
-            for v in variants:
-                e = simenv.make_engine(job, v)
-                store = e._history.current_store() if hasattr(e, "_history") else e._store
-                comps = [d for k, d in extract(e._router, store) if k == "comp"]
-                kinds = [k for k, _d in extract(e._router, store)]
-                if kinds != ["comp"] * len(comps) + ["timer"]:
-                    raise Unknown("%s/%d: installed layout %s is not components followed by the timer" % (job, v, collections.Counter(kinds)))
-                systems.append(("%s_%d" % (job, v), comps))
-                pybad += python_obligations("%s/%d" % (job, v), comps)
-    except Unknown as ex:
-        ctx.broken.append("H-dispatch extraction: %s" % ex)
-    cov["systems"] = len(systems)
-    cov["components"] = sum(len(c) for _l, c in systems)
-    cov["mapping_keys"] = sum(len(c["keys"]) for _l, cc in systems for c in cc)
-    cov["dollar_keys"] = sorted({k for _l, cc in systems for c in cc for k, _m in c["keys"] if k.startswith("$")})
-    cov["bind_targets"] = dict(collections.Counter(v for _l, cc in systems for c in cc for _k, v in c["binds"]).most_common(12))
-    cov["addons"] = sum(len(c["addons"]) for _l, cc in systems for c in cc)
-    if systems:
-        ctx.write_gen("DispatchData.v", data_file(systems))
-        ok, log, failed = ctx.build(TARGETS)
-        if not ok:
-            ctx.obligations += 1
-            m = re.search(r"Error.*", log, re.S)
-            ctx.broken.append("H-dispatch: Model/DispatchExec.v does not build: %s" % " ".join((m.group(0) if m else log[-300:]).split())[:300])
-        elif not _check_generated(ctx):     # compiles the file: data + the generated obligations, proved there by vm_compute
-            ctx.broken.append("generated obligations of gen/DispatchData.v (clock / callbacks address bound by no component, no addon re-dispatches "
-                              "*.elapse, distinct names, non-empty keys) do not check on the components of this tree")
-    for b in pybad:
-        if b["what"].startswith(prop) or not b["what"].startswith("C0"):
-            findings.append(dict(prop=prop, what="H-dispatch: " + b["what"], component=b["component"], reducer="(install)", **{k: v for k, v in b.items() if k not in ("what", "component")}))
-
+    # ---- 1. extraction + generated obligations (once per check: `preflight` may already have done it)
+    systems, inits, viewdata = step1(ctx, prop, cov, findings)
     mark("extraction+obligations")
     # ---- 2. recording
     recs = []
@@ -770,7 +975,7 @@ def run(ctx, prop: str):
     rng.shuffle(rot)
     budget = 14 if quick else 240
     t0 = time.time()
-    syn = record_synthetic(rng, 0 if quick else 30)
+    syn = record_synthetic(rng, 0 if quick else 30, views=is10)
     recs.append(syn)
     for i in range(n_eng):
         if time.time() - t0 > budget:
@@ -780,7 +985,7 @@ def run(ctx, prop: str):
         if prop == "C07":                  # rejections: the same skill again before its cooldown is over
             lines = [x for l in lines for x in ([l, "USE " + l.split(" ", 1)[1]] if l.startswith(("USE", "CAST")) and rng.random() < 0.5 else [l])]
         try:
-            recs.append(record_engine(job, v, lines))
+            recs.append(record_engine(job, v, lines, views=is10))
         except Unknown as ex:
             ctx.broken.append("H-dispatch recording: %s" % ex)
     cov["recordings"] = [{"label": r.label, "plays": len(r.plays), "invocations": len(r.invocations), "dispatcher_calls": len(r.calls),
@@ -791,100 +996,102 @@ def run(ctx, prop: str):
 
     mark("recording")
     shards, meta = {}, {}
-    # ---- (a) _find_mapping_name / includes
-    keysets, kidx, fcases, finfo = [], {}, [], []
-    observed = collections.defaultdict(set)
-    for r in good:
-        for p in r.plays:
-            for a in p["dispatched"]:
-                observed[r.label].add(a["name"] if not a["method"] else a["name"] + "." + a["method"])
+    istat = collections.Counter()
+    if not is10:
+        # ---- (a) _find_mapping_name / includes
+        keysets, kidx, fcases, finfo = [], {}, [], []
+        observed = collections.defaultdict(set)
+        for r in good:
+            for p in r.plays:
+                for a in p["dispatched"]:
+                    observed[r.label].add(a["name"] if not a["method"] else a["name"] + "." + a["method"])
 
-    def ks(keys):
-        t = tuple(keys)
-        if t not in kidx:
-            kidx[t] = len(keysets)
-            keysets.append(list(keys))
-        return kidx[t]
-    inc_mismatch = 0
-    for r in good:
-        comps = [d for k, d in r.comps if k == "comp"]
-        obs = sorted(observed[r.label])
-        for c in comps:
-            keys = [k for k, _m in c["keys"]]
-            sigs = near_misses(rng, keys, rng.sample(obs, min(len(obs), 12 if quick else 60)))
-            if quick and len(sigs) > 60:
-                dollar = [s for s in sigs if any(k.startswith("$") and k.replace("$", "")[:4] in s for k in keys)]
-                sigs = sorted(set(rng.sample(sigs, 45) + dollar[:25]))
-            for s in sigs:
-                exp, inc = real_find(keys, s)
-                if (inc is True) != exp.startswith("(FFound") and inc != "raise":
-                    inc_mismatch += 1
-                    findings.append(dict(prop=prop, what="H-dispatch: includes() disagrees with _find_mapping_name", component=c["name"], reducer="includes",
-                                         signature=s, keys=keys))
+        def ks(keys):
+            t = tuple(keys)
+            if t not in kidx:
+                kidx[t] = len(keysets)
+                keysets.append(list(keys))
+            return kidx[t]
+        inc_mismatch = 0
+        for r in good:
+            comps = [d for k, d in r.comps if k == "comp"]
+            obs = sorted(observed[r.label])
+            for c in comps:
+                keys = [k for k, _m in c["keys"]]
+                sigs = near_misses(rng, keys, rng.sample(obs, min(len(obs), 12 if quick else 60)))
+                if quick and len(sigs) > 60:
+                    dollar = [s for s in sigs if any(k.startswith("$") and k.replace("$", "")[:4] in s for k in keys)]
+                    sigs = sorted(set(rng.sample(sigs, 45) + dollar[:25]))
+                for s in sigs:
+                    exp, inc = real_find(keys, s)
+                    if (inc is True) != exp.startswith("(FFound") and inc != "raise":
+                        inc_mismatch += 1
+                        findings.append(dict(prop=prop, what="H-dispatch: includes() disagrees with _find_mapping_name", component=c["name"], reducer="includes",
+                                             signature=s, keys=keys))
+                    fcases.append("(%d, %s, %s)" % (ks(keys), cs(s), exp))
+                    finfo.append({"keys": keys, "signature": s, "implementation": exp})
+        for keys in SYN_KEYSETS:
+            for s in SYN_SIGS:
+                exp, _inc = real_find(keys, s)
                 fcases.append("(%d, %s, %s)" % (ks(keys), cs(s), exp))
                 finfo.append({"keys": keys, "signature": s, "implementation": exp})
-    for keys in SYN_KEYSETS:
-        for s in SYN_SIGS:
-            exp, _inc = real_find(keys, s)
-            fcases.append("(%d, %s, %s)" % (ks(keys), cs(s), exp))
-            finfo.append({"keys": keys, "signature": s, "implementation": exp})
-    order = list(range(len(fcases)))
-    if quick and len(order) > 2200:
-        syn_n = len(SYN_KEYSETS) * len(SYN_SIGS)
-        found = [j for j in order[:-syn_n] if finfo[j]["implementation"] != "FNone"]
-        rest = [j for j in order[:-syn_n] if finfo[j]["implementation"] == "FNone"]
-        order = sorted(set(found + rng.sample(rest, max(0, 1800 - len(found))) + order[-syn_n:]))
-    for i, ch in enumerate(chunks(order, 500)):
-        used = sorted({int(fcases[j][1:fcases[j].index(",")]) for j in ch})
-        remap = {u: x for x, u in enumerate(used)}
-        ksdef = "Definition keysets : list (list string) := %s.\n" % cl(cl(cs(k) for k in keysets[u]) for u in used)
-        cases = ["(%d%s" % (remap[int(fcases[j][1:fcases[j].index(",")])], fcases[j][fcases[j].index(","):]) for j in ch]
-        n = "disp_%s_find_%02d" % (prop.lower(), i)
-        shards[n] = HEADER + ksdef + "Eval vm_compute in (bad (map (fm_case keysets) %s)).\n" % cl(cases)
-        meta[n] = ("find_mapping", [finfo[j] for j in ch])
-    fcases = [fcases[j] for j in order]
-    finfo = [finfo[j] for j in order]
-    cov["find_mapping_cases"] = len(fcases)
-    cov["find_mapping_results"] = dict(collections.Counter(x["implementation"].split()[0].strip("(") for x in finfo))
+        order = list(range(len(fcases)))
+        if quick and len(order) > 2200:
+            syn_n = len(SYN_KEYSETS) * len(SYN_SIGS)
+            found = [j for j in order[:-syn_n] if finfo[j]["implementation"] != "FNone"]
+            rest = [j for j in order[:-syn_n] if finfo[j]["implementation"] == "FNone"]
+            order = sorted(set(found + rng.sample(rest, max(0, 1800 - len(found))) + order[-syn_n:]))
+        for i, ch in enumerate(chunks(order, 500)):
+            used = sorted({int(fcases[j][1:fcases[j].index(",")]) for j in ch})
+            remap = {u: x for x, u in enumerate(used)}
+            ksdef = "Definition keysets : list (list string) := %s.\n" % cl(cl(cs(k) for k in keysets[u]) for u in used)
+            cases = ["(%d%s" % (remap[int(fcases[j][1:fcases[j].index(",")])], fcases[j][fcases[j].index(","):]) for j in ch]
+            n = "disp_%s_find_%02d" % (prop.lower(), i)
+            shards[n] = HEADER + ksdef + "Eval vm_compute in (bad (map (fm_case keysets) %s)).\n" % cl(cases)
+            meta[n] = ("find_mapping", [finfo[j] for j in ch])
+        fcases = [fcases[j] for j in order]
+        finfo = [finfo[j] for j in order]
+        cov["find_mapping_cases"] = len(fcases)
+        cov["find_mapping_results"] = dict(collections.Counter(x["implementation"].split()[0].strip("(") for x in finfo))
 
-    # ---- (b) tag_events_by_method_name
-    from simaple.simulate.component.base import ReducerMethodWrappingDispatcher
-    tcases, tinfo = [], []
-    ids = Ids()
-    raws = [("n", "m", r) for r in RAW_EVENT_SETS] + [("한", "", RAW_EVENT_SETS[1]), ("n", "global.accept", RAW_EVENT_SETS[2])]
-    seen_raw = set()
-    for r in good:
-        for inv in r.invocations:
-            raw = inv["raw"]
-            evs = [] if raw is None else ([raw] if isinstance(raw, dict) else raw)
-            k = (inv["comp"], inv["method"], digest(evs))
-            if k in seen_raw:
+        # ---- (b) tag_events_by_method_name
+        from simaple.simulate.component.base import ReducerMethodWrappingDispatcher
+        tcases, tinfo = [], []
+        ids = Ids()
+        raws = [("n", "m", r) for r in RAW_EVENT_SETS] + [("한", "", RAW_EVENT_SETS[1]), ("n", "global.accept", RAW_EVENT_SETS[2])]
+        seen_raw = set()
+        for r in good:
+            for inv in r.invocations:
+                raw = inv["raw"]
+                evs = [] if raw is None else ([raw] if isinstance(raw, dict) else raw)
+                k = (inv["comp"], inv["method"], digest(evs))
+                if k in seen_raw:
+                    continue
+                seen_raw.add(k)
+                raws.append((inv["comp"], inv["method"], evs))
+        if quick and len(raws) > 400:
+            raws = raws[:len(RAW_EVENT_SETS) + 2] + rng.sample(raws[len(RAW_EVENT_SETS) + 2:], 380)
+        for name, method, evs in raws:
+            d = ReducerMethodWrappingDispatcher(name, {}, {}, {})
+            try:
+                out = d.tag_events_by_method_name(method, [dict(e) for e in evs])
+            except Exception as ex:
+                diff("tag_events_by_method_name raised %r" % ex, {"name": name, "method": method, "raw": evs})
                 continue
-            seen_raw.add(k)
-            raws.append((inv["comp"], inv["method"], evs))
-    if quick and len(raws) > 400:
-        raws = raws[:len(RAW_EVENT_SETS) + 2] + rng.sample(raws[len(RAW_EVENT_SETS) + 2:], 380)
-    for name, method, evs in raws:
-        d = ReducerMethodWrappingDispatcher(name, {}, {}, {})
-        try:
-            out = d.tag_events_by_method_name(method, [dict(e) for e in evs])
-        except Exception as ex:
-            diff("tag_events_by_method_name raised %r" % ex, {"name": name, "method": method, "raw": evs})
-            continue
-        tcases.append("(%s, %s, %s, %s)" % (cs(name), cs(method), cl(ev_term(ids, e) for e in evs), cl(ev_term(ids, e) for e in out)))
-        tinfo.append({"name": name, "method": method, "raw": evs, "implementation": out})
-        # the statement itself, on the implementation
-        rawtags = [e.get("tag") for e in evs]
-        has = any(t in ("global.reject", "global.accept") for t in rawtags)
-        acc = len(out) - len(evs)
-        if acc != (0 if has else 1) or (acc == 1 and out[-1].get("tag") != "global.accept"):
-            findings.append(dict(prop=prop, what="H-dispatch: ACCEPT rule: %d event(s) appended for raw tags %r" % (acc, rawtags), component=name, reducer=method, raw=evs, out=out))
-    for i, ch in enumerate(chunks(list(range(len(tcases))), 400)):
-        n = "disp_%s_tag_%02d" % (prop.lower(), i)
-        shards[n] = HEADER + "Eval vm_compute in (bad (map tag_case %s)).\n" % cl(tcases[j] for j in ch)
-        meta[n] = ("tag_events", [tinfo[j] for j in ch])
-    cov["tag_cases"] = len(tcases)
-    cov["tag_raw_tags"] = dict(collections.Counter(str(e.get("tag")) for x in tinfo for e in x["raw"]).most_common(12))
+            tcases.append("(%s, %s, %s, %s)" % (cs(name), cs(method), cl(ev_term(ids, e) for e in evs), cl(ev_term(ids, e) for e in out)))
+            tinfo.append({"name": name, "method": method, "raw": evs, "implementation": out})
+            # the statement itself, on the implementation
+            rawtags = [e.get("tag") for e in evs]
+            has = any(t in ("global.reject", "global.accept") for t in rawtags)
+            acc = len(out) - len(evs)
+            if acc != (0 if has else 1) or (acc == 1 and out[-1].get("tag") != "global.accept"):
+                findings.append(dict(prop=prop, what="H-dispatch: ACCEPT rule: %d event(s) appended for raw tags %r" % (acc, rawtags), component=name, reducer=method, raw=evs, out=out))
+        for i, ch in enumerate(chunks(list(range(len(tcases))), 400)):
+            n = "disp_%s_tag_%02d" % (prop.lower(), i)
+            shards[n] = HEADER + "Eval vm_compute in (bad (map tag_case %s)).\n" % cl(tcases[j] for j in ch)
+            meta[n] = ("tag_events", [tinfo[j] for j in ch])
+        cov["tag_cases"] = len(tcases)
+        cov["tag_raw_tags"] = dict(collections.Counter(str(e.get("tag")) for x in tinfo for e in x["raw"]).most_common(12))
 
     # ---- (c) bound names and write sets
     bcases, binfo, wcases, winfo = [], [], [], []
@@ -933,128 +1140,210 @@ def run(ctx, prop: str):
     cov["write_set_cases"] = len(wcases)
     cov["write_sets"] = dict(wstat)
 
-    # ---- (d) addresses, signatures, callbacks, method mappings
-    from simaple.simulate.base import AddressedStore, ConcreteStore, _get_event_callbacks, message_signature
-    curs = ["", ".a", ".한글", "x.y", "."]
-    nms = ["", "a", "a.b", ".a", "a.", "..", "global.time", "한글", "한.글", "previous_callbacks", "a b", "$"]
-    rc, lc, mc, cc, dinfo = [], [], [], [], {"resolve": [], "local": [], "msig": [], "callbacks": [], "mappings": []}
-    for cur in curs:
+    # ---- C10: what the views read, the children of the aggregation views, the initial store
+    if is10:
+        vcases, vinfo, seen_v = [], [], set()
+        vstat = collections.Counter()
+        for r in good:
+            comps = {d["name"]: d for k, d in r.comps if k == "comp"}
+            for st_ in (r.view_stats,):
+                vstat.update(st_)
+            findings += r.view_findings[:4]
+            for comp, view, reads in r.view_obs:
+                c = comps.get(comp)
+                if c is None:
+                    diff("a registered component view belongs to no installed dispatcher", {"system": r.label, "component": comp, "view": view})
+                    continue
+                k = (comp, view, reads, tuple(c["bound"]))
+                if k in seen_v:
+                    continue
+                seen_v.add(k)
+                binds = c["binds"] if r.label != "synthetic" else list(syn.orig_binds[c["name"]].items())
+                # the component as the DISPATCHER sees it (name, default names, binds) -> the model's bound addresses = what the VIEW read, in order
+                vcases.append("(%s, %s, %s, %s)" % (cs(c["name"]), cl(cs(n) for n in c["defaults"]), cl("(%s, %s)" % (cs(a), cs(b)) for a, b in binds),
+                                                    cl(cs(a) for a in reads)))
+                vinfo.append({"system": r.label, "component": comp, "view": view, "implementation_reads": list(reads), "dispatcher_bound": c["bound"]})
+        for i, ch in enumerate(chunks(list(range(len(vcases))), 500)):
+            n = "disp_%s_reads_%02d" % (prop.lower(), i)
+            shards[n] = HEADER + "Eval vm_compute in (bad (map bound_case %s)).\n" % cl(vcases[j] for j in ch)
+            meta[n] = ("view_reads", [vinfo[j] for j in ch])
+        ccases, cinfo, icases, iinfo = [], [], [], []
+        allviews = dict(viewdata)
+        if syn.views is not None:
+            allviews["synthetic"] = syn.views
+        for label, vd in allviews.items():
+            for agg in vd["aggregations"]:
+                ccases.append("(%s, %s, %s)" % (cl(cs(n) for n in vd["names"]), cs(agg["kind"]), cl(cs(n) for n in agg["children"])))
+                cinfo.append({"system": label, "aggregation": agg["name"], "pattern": agg["pattern"], "registered": len(vd["names"]), "implementation": agg["children"]})
+        vstat["aggregation_views"] = len(ccases)
+        vstat["component_views_registered"] = sum(len(vd["component_views"]) for vd in allviews.values())
+        for label, comps in systems:
+            icases.append("(%s, %s)" % (cl("(%s, %s)" % (cs(c["name"]), cl(cs(n) for n in c["defaults"])) for c in comps), cl(cs(a) for a in inits[label])))
+            iinfo.append({"system": label, "implementation": inits[label]})
+        if syn.error is None and getattr(syn, "initial_addresses", None):
+            comps = [d for k, d in syn.comps if k == "comp"]
+            icases.append("(%s, %s)" % (cl("(%s, %s)" % (cs(c["name"]), cl(cs(n) for n in c["defaults"])) for c in comps), cl(cs(a) for a in syn.initial_addresses)))
+            iinfo.append({"system": "synthetic", "implementation": syn.initial_addresses})
+        for i, ch in enumerate(chunks(list(range(len(ccases))), 40)):
+            n = "disp_%s_children_%02d" % (prop.lower(), i)
+            shards[n] = HEADER + "Eval vm_compute in (bad (map children_case %s)).\n" % cl(ccases[j] for j in ch)
+            meta[n] = ("children", [cinfo[j] for j in ch])
+        for i, ch in enumerate(chunks(list(range(len(icases))), 12)):
+            n = "disp_%s_init_%02d" % (prop.lower(), i)
+            shards[n] = HEADER + "Eval vm_compute in (bad (map init_case %s)).\n" % cl(icases[j] for j in ch)
+            meta[n] = ("init", [iinfo[j] for j in ch])
+        # a view called directly on stores that LACK some of its entities: setdefault of defaulted ones, ValueError otherwise
+        from simaple.core.base import ActionStat
+        from simaple.simulate.kms import bare_store
+        K = synthetic_classes()["Counter"]
+        dcases, dinfo_ = [], []
+        syn_comps = synthetic_components()
+        for extra in ([], [".alpha.counter"], [".beta.counter"], [".alpha.counter", ".beta.counter", ".gamma.x.counter"]):
+            for comp in syn_comps:
+                ob = dict(comp.binds)
+                for vn, view in comp.get_views().items():
+                    st_ = bare_store(ActionStat())
+                    for a in extra:
+                        st_.set_entity(a, K(n=1))
+                    before = list(st_.save().keys())
+                    try:
+                        view(st_)
+                        exp, obs = "(Some %s)" % cl(cs(a) for a in st_.save().keys()), list(st_.save().keys())
+                    except ValueError as ex:
+                        exp, obs = "None", "ValueError"
+                    dcases.append("(%s, %s, %s, %s, %s)" % (cs(comp.name), cl(cs(n) for n in comp.get_default_state()),
+                                                            cl("(%s, %s)" % (cs(a), cs(b)) for a, b in ob.items() if a != "dynamics"), cl(cs(a) for a in before), exp))
+                    dinfo_.append({"component": comp.name, "view": vn, "store": before, "implementation": obs})
+        n = "disp_%s_viewcall" % prop.lower()
+        shards[n] = HEADER + "Eval vm_compute in (bad (map viewcall_case %s)).\n" % cl(dcases)
+        meta[n] = ("viewcall", dinfo_)
+        cov["views"] = dict(vstat, read_set_cases=len(vcases), direct_view_calls_on_incomplete_stores=len(dcases), children_cases=len(ccases), initial_store_cases=len(icases),
+                            distinct_views_observed=len({(v["component"], v["view"]) for v in vinfo}))
+        istat.update({"view_calls": vstat["view_calls"], "stores_probed": vstat["stores_probed"]})
+    if not is10:
+        # ---- (d) addresses, signatures, callbacks, method mappings
+        from simaple.simulate.base import AddressedStore, ConcreteStore, _get_event_callbacks, message_signature
+        curs = ["", ".a", ".한글", "x.y", "."]
+        nms = ["", "a", "a.b", ".a", "a.", "..", "global.time", "한글", "한.글", "previous_callbacks", "a b", "$"]
+        rc, lc, mc, cc, dinfo = [], [], [], [], {"resolve": [], "local": [], "msig": [], "callbacks": [], "mappings": []}
+        for cur in curs:
+            for nm in nms:
+                st = AddressedStore(ConcreteStore(), cur)
+                rc.append("(%s, %s, %s)" % (cs(cur), cs(nm), cs(st._resolve_address(nm))))
+                dinfo["resolve"].append({"current": cur, "name": nm, "implementation": st._resolve_address(nm)})
+                lc.append("(%s, %s, %s)" % (cs(cur), cs(nm), cs(st.local(nm)._current_address)))
+                dinfo["local"].append({"current": cur, "address": nm, "implementation": st.local(nm)._current_address})
+        meths = ["", "use", "elapse", "use.emitted.global.damage", ".", "a.b"]
         for nm in nms:
-            st = AddressedStore(ConcreteStore(), cur)
-            rc.append("(%s, %s, %s)" % (cs(cur), cs(nm), cs(st._resolve_address(nm))))
-            dinfo["resolve"].append({"current": cur, "name": nm, "implementation": st._resolve_address(nm)})
-            lc.append("(%s, %s, %s)" % (cs(cur), cs(nm), cs(st.local(nm)._current_address)))
-            dinfo["local"].append({"current": cur, "address": nm, "implementation": st.local(nm)._current_address})
-    meths = ["", "use", "elapse", "use.emitted.global.damage", ".", "a.b"]
-    for nm in nms:
-        for m in meths:
-            s = message_signature({"name": nm, "method": m, "payload": None})
-            mc.append("(%s, %s, %s)" % (cs(nm), cs(m), cs(s)))
-            dinfo["msig"].append({"name": nm, "method": m, "implementation": s})
-    evs = [{"name": nm, "payload": p, "method": m, "tag": t, "handler": None}
-           for nm in ["a", "한글", "a.b", ""] for m in ["use", "", "x.y"] for t in [None, "", "global.damage", "t.u"] for p in [{}, {"time": 1.5}]]
-    for r in good[:3]:
-        for p in r.plays[:6]:
-            evs += p["events"][:6]
-    for e in evs:
-        em, dn = _get_event_callbacks(e)
-        cc.append("(%s, Ac %s %s %s, Ac %s %s %s)" % (ev_term(ids, e), cs(em["name"]), cs(em["method"]), cn(ids.pay(em["payload"])),
-                                                      cs(dn["name"]), cs(dn["method"]), cn(ids.pay(dn["payload"]))))
-        dinfo["callbacks"].append({"event": e, "implementation": [em, dn]})
-    from simaple.simulate.component.base import StaticPayloadReducerInfo
-    mpc = []
-    mcomps = list(synthetic_components())
-    if quick:
-        from simaple.container.simulation import get_skill_components
-        mcomps += get_skill_components(simenv.get_env(rot[0], 0))
-    else:
-        from simaple.container.simulation import get_skill_components
-        for job in simenv.JOBS:
-            mcomps += get_skill_components(simenv.get_env(job, 0))
-    for comp in mcomps:
-        mm, rm = comp.get_method_mappings()
-        methods = list(comp.get_every_reducer_methods().keys())
-        la = comp.listening_actions
-        listening = [(k, v) for k, v in la.items() if isinstance(v, str)] + [(k, v.name) for k, v in la.items() if isinstance(v, StaticPayloadReducerInfo)]
-        if list(mm) != list(rm):
-            diff("get_method_mappings: method_mappings and reducer_mappings differ in key order", {"component": comp.name}, list(mm), list(rm))
-        mpc.append("(%s, %s, %s, %s)" % (cs(comp.name), cl(cs(m) for m in methods), cl("(%s, %s)" % (cs(k), cs(v)) for k, v in listening),
-                                         cl("(%s, %s)" % (cs(k), cs(mm[k])) for k in rm)))
-        dinfo["mappings"].append({"component": comp.name, "methods": methods, "listening": listening, "implementation": [(k, mm[k]) for k in rm]})
-    # ConcreteStore.read_entity / set_entity and the timer, called directly
-    from simaple.simulate.global_property import Clock
-    from simaple.simulate.timer import timer_delay_dispatcher
-    K = synthetic_classes()["Counter"]
-    rdc, stc, tmc = [], [], []
-    dinfo.update(read=[], set=[], timer=[])
-    for init in ([], [("x", 1)], [("a", 1), ("x", 2), ("b", 3)]):
-        for addr in ("x", "y", ""):
-            for dflt in (None, 7):
+            for m in meths:
+                s = message_signature({"name": nm, "method": m, "payload": None})
+                mc.append("(%s, %s, %s)" % (cs(nm), cs(m), cs(s)))
+                dinfo["msig"].append({"name": nm, "method": m, "implementation": s})
+        evs = [{"name": nm, "payload": p, "method": m, "tag": t, "handler": None}
+               for nm in ["a", "한글", "a.b", ""] for m in ["use", "", "x.y"] for t in [None, "", "global.damage", "t.u"] for p in [{}, {"time": 1.5}]]
+        for r in good[:3]:
+            for p in r.plays[:6]:
+                evs += p["events"][:6]
+        for e in evs:
+            em, dn = _get_event_callbacks(e)
+            cc.append("(%s, Ac %s %s %s, Ac %s %s %s)" % (ev_term(ids, e), cs(em["name"]), cs(em["method"]), cn(ids.pay(em["payload"])),
+                                                          cs(dn["name"]), cs(dn["method"]), cn(ids.pay(dn["payload"]))))
+            dinfo["callbacks"].append({"event": e, "implementation": [em, dn]})
+        from simaple.simulate.component.base import StaticPayloadReducerInfo
+        mpc = []
+        mcomps = list(synthetic_components())
+        if quick:
+            from simaple.container.simulation import get_skill_components
+            mcomps += get_skill_components(simenv.get_env(rot[0], 0))
+        else:
+            from simaple.container.simulation import get_skill_components
+            for job in simenv.JOBS:
+                mcomps += get_skill_components(simenv.get_env(job, 0))
+        for comp in mcomps:
+            mm, rm = comp.get_method_mappings()
+            methods = list(comp.get_every_reducer_methods().keys())
+            la = comp.listening_actions
+            listening = [(k, v) for k, v in la.items() if isinstance(v, str)] + [(k, v.name) for k, v in la.items() if isinstance(v, StaticPayloadReducerInfo)]
+            if list(mm) != list(rm):
+                diff("get_method_mappings: method_mappings and reducer_mappings differ in key order", {"component": comp.name}, list(mm), list(rm))
+            mpc.append("(%s, %s, %s, %s)" % (cs(comp.name), cl(cs(m) for m in methods), cl("(%s, %s)" % (cs(k), cs(v)) for k, v in listening),
+                                             cl("(%s, %s)" % (cs(k), cs(mm[k])) for k in rm)))
+            dinfo["mappings"].append({"component": comp.name, "methods": methods, "listening": listening, "implementation": [(k, mm[k]) for k in rm]})
+        # ConcreteStore.read_entity / set_entity and the timer, called directly
+        from simaple.simulate.global_property import Clock
+        from simaple.simulate.timer import timer_delay_dispatcher
+        K = synthetic_classes()["Counter"]
+        rdc, stc, tmc = [], [], []
+        dinfo.update(read=[], set=[], timer=[])
+        for init in ([], [("x", 1)], [("a", 1), ("x", 2), ("b", 3)]):
+            for addr in ("x", "y", ""):
+                for dflt in (None, 7):
+                    st = ConcreteStore()
+                    for k, v in init:
+                        st.set_entity(k, K(n=v))
+                    try:
+                        val = st.read_entity(addr, default=None if dflt is None else K(n=dflt))
+                        exp = "(Some (%s, %s))" % (cl("(%s, %s)" % (cs(k), cn(v.n)) for k, v in st._entities.items()), cn(val.n))
+                        obs = {"store": [(k, v.n) for k, v in st._entities.items()], "value": val.n}
+                    except ValueError:
+                        exp, obs = "None", "ValueError"
+                    rdc.append("(%s, %s, %s, %s)" % (cl("(%s, %s)" % (cs(k), cn(v)) for k, v in init), cs(addr), "None" if dflt is None else "(Some %s)" % cn(dflt), exp))
+                    dinfo["read"].append({"store": init, "address": addr, "default": dflt, "implementation": obs})
                 st = ConcreteStore()
                 for k, v in init:
                     st.set_entity(k, K(n=v))
-                try:
-                    val = st.read_entity(addr, default=None if dflt is None else K(n=dflt))
-                    exp = "(Some (%s, %s))" % (cl("(%s, %s)" % (cs(k), cn(v.n)) for k, v in st._entities.items()), cn(val.n))
-                    obs = {"store": [(k, v.n) for k, v in st._entities.items()], "value": val.n}
-                except ValueError:
-                    exp, obs = "None", "ValueError"
-                rdc.append("(%s, %s, %s, %s)" % (cl("(%s, %s)" % (cs(k), cn(v)) for k, v in init), cs(addr), "None" if dflt is None else "(Some %s)" % cn(dflt), exp))
-                dinfo["read"].append({"store": init, "address": addr, "default": dflt, "implementation": obs})
-            st = ConcreteStore()
-            for k, v in init:
-                st.set_entity(k, K(n=v))
-            st.set_entity(addr, K(n=9))
-            stc.append("(%s, %s, %s, %s)" % (cl("(%s, %s)" % (cs(k), cn(v)) for k, v in init), cs(addr), cn(9), cl("(%s, %s)" % (cs(k), cn(v.n)) for k, v in st._entities.items())))
-            dinfo["set"].append({"store": init, "address": addr, "implementation": [(k, v.n) for k, v in st._entities.items()]})
-    for nm, m in (("*", "elapse"), ("*", "use"), ("x", "elapse"), ("x", "use"), ("*.elapse", ""), ("", "elapse"), ("*", "")):
-        for has in (True, False):
-            st = AddressedStore(ConcreteStore())
-            if has:
-                st.set_entity("global.time", Clock(current_time=10.0))
-            evs_ = timer_delay_dispatcher({"name": nm, "method": m, "payload": 5.0}, st)
-            ck = st._concrete_store._entities.get("global.time")
-            now = None if ck is None else ck.current_time
-            moved = now != (10.0 if has else None)
-            ok_val = (not moved) or now == (15.0 if has else 5.0)
-            tmc.append("(%s, %s, %s, %s)" % (cs(nm), cs(m), "true" if has else "false", "true" if (moved and ok_val and evs_ == []) else "false"))
-            dinfo["timer"].append({"name": nm, "method": m, "clock_present": has, "implementation": {"clock_after": now, "events": evs_}})
-    n = "disp_%s_addr" % prop.lower()
-    shards[n] = (HEADER + "Eval vm_compute in (bad (map resolve_case %s)).\nEval vm_compute in (bad (map local_case %s)).\n"
-                 "Eval vm_compute in (bad (map msig_case %s)).\nEval vm_compute in (bad (map cb_case %s)).\nEval vm_compute in (bad (map maps_case %s)).\n"
-                 "Eval vm_compute in (bad (map read_case %s)).\nEval vm_compute in (bad (map set_case %s)).\nEval vm_compute in (bad (map timer_case %s)).\n"
-                 % (cl(rc), cl(lc), cl(mc), cl(cc), cl(mpc), cl(rdc), cl(stc), cl(tmc)))
-    meta[n] = ("addr", dinfo)
-    cov["address_cases"] = {"resolve": len(rc), "local": len(lc), "message_signature": len(mc), "callbacks": len(cc), "method_mappings": len(mpc),
-                            "read_entity": len(rdc), "set_entity": len(stc), "timer_direct": len(tmc)}
+                st.set_entity(addr, K(n=9))
+                stc.append("(%s, %s, %s, %s)" % (cl("(%s, %s)" % (cs(k), cn(v)) for k, v in init), cs(addr), cn(9), cl("(%s, %s)" % (cs(k), cn(v.n)) for k, v in st._entities.items())))
+                dinfo["set"].append({"store": init, "address": addr, "implementation": [(k, v.n) for k, v in st._entities.items()]})
+        for nm, m in (("*", "elapse"), ("*", "use"), ("x", "elapse"), ("x", "use"), ("*.elapse", ""), ("", "elapse"), ("*", "")):
+            for has in (True, False):
+                st = AddressedStore(ConcreteStore())
+                if has:
+                    st.set_entity("global.time", Clock(current_time=10.0))
+                evs_ = timer_delay_dispatcher({"name": nm, "method": m, "payload": 5.0}, st)
+                ck = st._concrete_store._entities.get("global.time")
+                now = None if ck is None else ck.current_time
+                moved = now != (10.0 if has else None)
+                ok_val = (not moved) or now == (15.0 if has else 5.0)
+                tmc.append("(%s, %s, %s, %s)" % (cs(nm), cs(m), "true" if has else "false", "true" if (moved and ok_val and evs_ == []) else "false"))
+                dinfo["timer"].append({"name": nm, "method": m, "clock_present": has, "implementation": {"clock_after": now, "events": evs_}})
+        n = "disp_%s_addr" % prop.lower()
+        shards[n] = (HEADER + "Eval vm_compute in (bad (map resolve_case %s)).\nEval vm_compute in (bad (map local_case %s)).\n"
+                     "Eval vm_compute in (bad (map msig_case %s)).\nEval vm_compute in (bad (map cb_case %s)).\nEval vm_compute in (bad (map maps_case %s)).\n"
+                     "Eval vm_compute in (bad (map read_case %s)).\nEval vm_compute in (bad (map set_case %s)).\nEval vm_compute in (bad (map timer_case %s)).\n"
+                     % (cl(rc), cl(lc), cl(mc), cl(cc), cl(mpc), cl(rdc), cl(stc), cl(tmc)))
+        meta[n] = ("addr", dinfo)
+        cov["address_cases"] = {"resolve": len(rc), "local": len(lc), "message_signature": len(mc), "callbacks": len(cc), "method_mappings": len(mpc),
+                                "read_entity": len(rdc), "set_entity": len(stc), "timer_direct": len(tmc)}
 
-    # ---- (e) whole plays, trace-driven
-    pstat = collections.Counter()
-    for ri, r in enumerate(good[:1 + n_play_shards]):
-        try:
-            # the default entity ids come from the recorded dispatchers themselves
-            r.default_ids = {}
-            for c in (r.components if r.label == "synthetic" else []):
-                for nme, e in c.get_default_state().items():
-                    r.default_ids[(c.name, nme)] = r.ids.ent(e)
-            if r.label != "synthetic":
-                e0 = simenv.make_engine(*_jv(r.label))
-                r.default_ids = default_ids(r, e0._router)
-            txt, infos, conflicts = shard_plays(r)
-        except Unknown as ex:
-            ctx.broken.append("H-dispatch plays: %s" % ex)
-            continue
-        for c in conflicts[:2]:
-            ctx.broken.append("H-dispatch: a reducer answered differently on equal (payload, state): %s" % json.dumps(c, ensure_ascii=False, default=str)[:200])
-        n = "disp_%s_play_%02d" % (prop.lower(), ri)
-        shards[n] = txt
-        meta[n] = ("plays", {"recording": r.label, "plan": getattr(r, "lines", None), "plays": infos})
-        pstat["plays"] += len(r.plays)
-        pstat["dispatched_actions"] += sum(len(p["dispatched"]) for p in r.plays)
-        pstat["invocations"] += len(r.invocations)
-        pstat["addon_invocations"] += sum(1 for i in r.invocations if i["addon"])
-        pstat["listener_invocations"] += sum(1 for i in r.invocations if ".emitted." in i["key"] or ".done." in i["key"] or i["key"].startswith("$"))
-    cov["plays"] = dict(pstat)
+    if not is10:
+        # ---- (e) whole plays, trace-driven
+        pstat = collections.Counter()
+        for ri, r in enumerate(good[:1 + n_play_shards]):
+            try:
+                # the default entity ids come from the recorded dispatchers themselves
+                r.default_ids = {}
+                for c in (r.components if r.label == "synthetic" else []):
+                    for nme, e in c.get_default_state().items():
+                        r.default_ids[(c.name, nme)] = r.ids.ent(e)
+                if r.label != "synthetic":
+                    e0 = simenv.make_engine(*_jv(r.label))
+                    r.default_ids = default_ids(r, e0._router)
+                txt, infos, conflicts = shard_plays(r)
+            except Unknown as ex:
+                ctx.broken.append("H-dispatch plays: %s" % ex)
+                continue
+            for c in conflicts[:2]:
+                ctx.broken.append("H-dispatch: a reducer answered differently on equal (payload, state): %s" % json.dumps(c, ensure_ascii=False, default=str)[:200])
+            n = "disp_%s_play_%02d" % (prop.lower(), ri)
+            shards[n] = txt
+            meta[n] = ("plays", {"recording": r.label, "plan": getattr(r, "lines", None), "plays": infos})
+            pstat["plays"] += len(r.plays)
+            pstat["dispatched_actions"] += sum(len(p["dispatched"]) for p in r.plays)
+            pstat["invocations"] += len(r.invocations)
+            pstat["addon_invocations"] += sum(1 for i in r.invocations if i["addon"])
+            pstat["listener_invocations"] += sum(1 for i in r.invocations if ".emitted." in i["key"] or ".done." in i["key"] or i["key"].startswith("$"))
+        cov["plays"] = dict(pstat)
 
     mark("case generation")
     # ---- evaluate
@@ -1098,85 +1387,89 @@ def run(ctx, prop: str):
         ndiff += len(b)
         for j in b[:3]:
             diff({"find_mapping": "_find_mapping_name", "tag_events": "tag_events_by_method_name", "bound_names": "StoreAdapter._get_bound_names + _resolve_address",
-                  "write_set": "write set of one dispatcher call is not inside the model's bound set"}[kind] + ": model and implementation differ",
+                  "write_set": "write set of one dispatcher call is not inside the model's bound set",
+                  "view_reads": "WrappedView: the addresses a view call reads are not the bound addresses of its component's dispatcher, in order",
+                  "children": "AggregationView.build: children of an installed aggregation view",
+                  "viewcall": "WrappedView called on a store lacking some entities (setdefault of defaulted ones / ValueError)",
+                  "init": "address set / order of the freshly built store (install_global_properties + init_store)"}[kind] + ": model and implementation differ",
                  info[j], model_find(info[j]["keys"], info[j]["signature"]) if kind == "find_mapping" else None,
-                 info[j].get("implementation") or info[j].get("implementation_bound") or info[j].get("written"))
+                 info[j].get("implementation") or info[j].get("implementation_bound") or info[j].get("written") or info[j].get("implementation_reads"))
     cov["correspondence"] = {"cases": ncase, "differences": ndiff, "shards": len(shards)}
 
-    # ---- 4. the statements themselves on the recorded runs
-    istat = collections.Counter()
-    for r in good:
-        comps = [d for k, d in r.comps if k == "comp"]
-        byname = {c["name"]: c for c in comps}
-        # C07: a rejected dispatch leaves the store as it was and is reported alone
-        for call in r.calls:
-            tags = [e.get("tag") for e in call["events"]]
-            if "global.reject" in tags:
-                istat["rejected_dispatches"] += 1
-                cls = call["invocations"][0]["cls"] if call["invocations"] else "?"
-                red = call["invocations"][0]["method"] if call["invocations"] else call["action"]["method"]
-                if prop == "C07":
-                    if call["changed"] or call["appeared"]:
-                        findings.append(dict(prop="C07", what="H-dispatch: a rejected action changed the state (store differs after the dispatch at %s)" % (call["changed"] + call["appeared"]),
-                                             component=cls, reducer=red, name=call["comp"], system=r.label, plan=getattr(r, "lines", None), action=call["action"],
-                                             before=call["before"], after=call["after"]))
-                    if len(call["events"]) != 1:
-                        findings.append(dict(prop="C07", what="H-dispatch: a rejection is accompanied by other events (dispatcher output %s)" % tags,
-                                             component=cls, reducer=red, name=call["comp"], system=r.label, plan=getattr(r, "lines", None), action=call["action"]))
-            elif call["invocations"]:
-                istat["accepted_dispatches"] += 1
-                if prop == "C07" and "global.accept" not in tags:
-                    findings.append(dict(prop="C07", what="H-dispatch: a dispatch without rejection was not acknowledged (no ACCEPT in %s)" % tags,
-                                         component=call["invocations"][0]["cls"], reducer=call["invocations"][0]["method"], name=call["comp"], system=r.label,
-                                         action=call["action"]))
-            if call["appeared"]:
-                istat["entities_created_by_a_dispatch"] += 1
-        # C05: every event of play k is offered to each listening component exactly once before and once after, in play k+1
-        def offered(name, method, payload):
-            sig = name if not method else name + "." + method
-            out = []
-            for c in comps:
-                key = r.bases[c["name"]]._find_mapping_name(sig)
-                if key is not None and r.bases[c["name"]].reducer_mappings.get(key) is not None:
-                    out.append((c["name"], key, r.ids.pay(payload)))
-            return out
-        for k in range(1, len(r.plays)):
-            prev, cur = r.plays[k - 1], r.plays[k]
-            before, after = [], []
-            for e in reversed(prev["events"]):            # emitted callbacks: newest event first
-                before += offered(e["name"], "%s.emitted.%s" % (e["method"], e.get("tag") or ""), e["payload"])
-            for e in prev["events"]:
-                after += offered(e["name"], "%s.done.%s" % (e["method"], e.get("tag") or ""), e["payload"])
-            a = cur["action"]
-            own = offered(a["name"], a["method"], a.get("payload"))
-            top = [(i["comp"], i["key"], i["pay"]) for i in cur["invocations"] if not i["addon"]]
-            istat["listener_offers_expected"] += len(before) + len(after)
-            istat["plays_with_listeners"] += 1 if before or after else 0
-            if prop == "C05" and top != before + own + after:
-                findings.append(dict(prop="C05", what="H-dispatch: listeners were not offered the events of the previous action exactly once before and once after "
-                                     "(expected %d before + %d own + %d after, observed %d direct invocations)" % (len(before), len(own), len(after), len(top)),
-                                     component="play", reducer="listeners", system=r.label, plan=getattr(r, "lines", None), play_index=k, action=a,
-                                     expected=(before + own + after)[:12], observed=top[:12]))
-        # C06: only a direct ("*", "elapse") moves the clock, by its payload; dispatcher calls never write the clock address
-        for p in r.plays:
-            a = p["action"]
-            istat["plays"] += 1
-            if prop == "C06":
-                moved = p["clock_before"] != p["clock_after"]
-                is_el = a["name"] == "*" and a["method"] == "elapse"
-                if moved and not is_el:
-                    findings.append(dict(prop="C06", what="H-dispatch: a play whose action is not (*, elapse) moved the clock entity", component="play", reducer="timer",
-                                         system=r.label, plan=getattr(r, "lines", None), action=a, before=p["clock_before"], after=p["clock_after"]))
-                if is_el and p["clock_before"] is not None and p["clock_after"] is not None:
-                    b0, a0 = p["clock_before"]["payload"]["current_time"], p["clock_after"]["payload"]["current_time"]
-                    if a0 != b0 + a["payload"]:
-                        findings.append(dict(prop="C06", what="H-dispatch: (*, elapse, %r) moved the clock entity from %r to %r" % (a["payload"], b0, a0), component="play",
-                                             reducer="timer", system=r.label, plan=getattr(r, "lines", None), action=a))
-        if prop == "C06":
+    if not is10:
+        # ---- 4. the statements themselves on the recorded runs
+        for r in good:
+            comps = [d for k, d in r.comps if k == "comp"]
+            byname = {c["name"]: c for c in comps}
+            # C07: a rejected dispatch leaves the store as it was and is reported alone
             for call in r.calls:
-                if CLOCK in call["written"]:
-                    findings.append(dict(prop="C06", what="H-dispatch: a component dispatcher wrote the clock address", component=call["comp"], reducer=call["action"]["method"],
-                                         system=r.label, action=call["action"]))
+                tags = [e.get("tag") for e in call["events"]]
+                if "global.reject" in tags:
+                    istat["rejected_dispatches"] += 1
+                    cls = call["invocations"][0]["cls"] if call["invocations"] else "?"
+                    red = call["invocations"][0]["method"] if call["invocations"] else call["action"]["method"]
+                    if prop == "C07":
+                        if call["changed"] or call["appeared"]:
+                            findings.append(dict(prop="C07", what="H-dispatch: a rejected action changed the state (store differs after the dispatch at %s)" % (call["changed"] + call["appeared"]),
+                                                 component=cls, reducer=red, name=call["comp"], system=r.label, plan=getattr(r, "lines", None), action=call["action"],
+                                                 before=call["before"], after=call["after"]))
+                        if len(call["events"]) != 1:
+                            findings.append(dict(prop="C07", what="H-dispatch: a rejection is accompanied by other events (dispatcher output %s)" % tags,
+                                                 component=cls, reducer=red, name=call["comp"], system=r.label, plan=getattr(r, "lines", None), action=call["action"]))
+                elif call["invocations"]:
+                    istat["accepted_dispatches"] += 1
+                    if prop == "C07" and "global.accept" not in tags:
+                        findings.append(dict(prop="C07", what="H-dispatch: a dispatch without rejection was not acknowledged (no ACCEPT in %s)" % tags,
+                                             component=call["invocations"][0]["cls"], reducer=call["invocations"][0]["method"], name=call["comp"], system=r.label,
+                                             action=call["action"]))
+                if call["appeared"]:
+                    istat["entities_created_by_a_dispatch"] += 1
+            # C05: every event of play k is offered to each listening component exactly once before and once after, in play k+1
+            def offered(name, method, payload):
+                sig = name if not method else name + "." + method
+                out = []
+                for c in comps:
+                    key = r.bases[c["name"]]._find_mapping_name(sig)
+                    if key is not None and r.bases[c["name"]].reducer_mappings.get(key) is not None:
+                        out.append((c["name"], key, r.ids.pay(payload)))
+                return out
+            for k in range(1, len(r.plays)):
+                prev, cur = r.plays[k - 1], r.plays[k]
+                before, after = [], []
+                for e in reversed(prev["events"]):            # emitted callbacks: newest event first
+                    before += offered(e["name"], "%s.emitted.%s" % (e["method"], e.get("tag") or ""), e["payload"])
+                for e in prev["events"]:
+                    after += offered(e["name"], "%s.done.%s" % (e["method"], e.get("tag") or ""), e["payload"])
+                a = cur["action"]
+                own = offered(a["name"], a["method"], a.get("payload"))
+                top = [(i["comp"], i["key"], i["pay"]) for i in cur["invocations"] if not i["addon"]]
+                istat["listener_offers_expected"] += len(before) + len(after)
+                istat["plays_with_listeners"] += 1 if before or after else 0
+                if prop == "C05" and top != before + own + after:
+                    findings.append(dict(prop="C05", what="H-dispatch: listeners were not offered the events of the previous action exactly once before and once after "
+                                         "(expected %d before + %d own + %d after, observed %d direct invocations)" % (len(before), len(own), len(after), len(top)),
+                                         component="play", reducer="listeners", system=r.label, plan=getattr(r, "lines", None), play_index=k, action=a,
+                                         expected=(before + own + after)[:12], observed=top[:12]))
+            # C06: only a direct ("*", "elapse") moves the clock, by its payload; dispatcher calls never write the clock address
+            for p in r.plays:
+                a = p["action"]
+                istat["plays"] += 1
+                if prop == "C06":
+                    moved = p["clock_before"] != p["clock_after"]
+                    is_el = a["name"] == "*" and a["method"] == "elapse"
+                    if moved and not is_el:
+                        findings.append(dict(prop="C06", what="H-dispatch: a play whose action is not (*, elapse) moved the clock entity", component="play", reducer="timer",
+                                             system=r.label, plan=getattr(r, "lines", None), action=a, before=p["clock_before"], after=p["clock_after"]))
+                    if is_el and p["clock_before"] is not None and p["clock_after"] is not None:
+                        b0, a0 = p["clock_before"]["payload"]["current_time"], p["clock_after"]["payload"]["current_time"]
+                        if a0 != b0 + a["payload"]:
+                            findings.append(dict(prop="C06", what="H-dispatch: (*, elapse, %r) moved the clock entity from %r to %r" % (a["payload"], b0, a0), component="play",
+                                                 reducer="timer", system=r.label, plan=getattr(r, "lines", None), action=a))
+            if prop == "C06":
+                for call in r.calls:
+                    if CLOCK in call["written"]:
+                        findings.append(dict(prop="C06", what="H-dispatch: a component dispatcher wrote the clock address", component=call["comp"], reducer=call["action"]["method"],
+                                             system=r.label, action=call["action"]))
     mark("statements on the implementation")
     cov["impl_search"] = dict(istat, counterexamples=len(findings))
     cov["wall_s"] = round(time.time() - t_start, 1)
@@ -1212,6 +1505,19 @@ def _check_generated(ctx) -> bool:
             ctx.broken.append("coqchk does not re-check G.DispatchData: %s" % out[-300:])
             return False
     return ok
+
+
+def preflight(ctx, prop="C10"):
+    """before anything else evaluates a view: the extraction, the generated obligations and every registered view on the freshly built
+    engines of all jobs.  Returns the findings for `prop` (a bound address that nobody owns makes every view of that component raise
+    in the INITIAL state, and the rest of a driver cannot even draw a plan)."""
+    findings = []
+    cov = ctx.cov.setdefault("dispatch_preflight", {})
+    try:
+        step1(ctx, prop, cov, findings)
+    except Exception as ex:
+        findings.append(dict(prop=prop, what="H-dispatch: building / inspecting the engines raised %r" % (ex,), component="engine", reducer="(build)"))
+    return findings
 
 
 def hook(ctx, prop: str):
